@@ -256,6 +256,75 @@ def _roots(fa, name_expr, node_id, depth=8):
     return out
 
 
+def sub_conditions(fa):
+    """Every expression of the function that is evaluated for its truth value below statement level: tests of
+    conditional expressions, non-final operands of `and` / `or`, comprehension filters, assert tests."""
+    out = []
+    for x in A.walk_body(fa.node):
+        if isinstance(x, ast.IfExp):
+            out.append(x.test)
+        elif isinstance(x, ast.BoolOp):
+            out += x.values[:-1]
+        elif isinstance(x, ast.comprehension):
+            out += x.ifs
+    return out
+
+
+def expr_live(asm, expr, must=False):
+    """Is the expression `expr` evaluated on some feasible path under the assumptions `asm` (must=False), or
+    whenever its (feasibly reachable) statement runs (must=True)?  Finer than Assume.live: inside the statement the
+    branch of a conditional expression, the later operands of `and` / `or` and the element of a filtered
+    comprehension are evaluated only if the deciding sub-expressions allow it — `a if t else b`, `t and a`,
+    `[a for x in xs if t]` spell the same guard as `if t: a`.  -> list of CFG nodes at which it is evaluated."""
+    fa = asm.fa
+    ids = asm.live(expr)
+    if not ids:
+        return []
+    out = []
+    for i in ids:
+        ok = True
+        n = expr
+        while ok and n is not None and not isinstance(n, ast.stmt):
+            p = fa.pm.get(n)
+            if isinstance(p, ast.IfExp) and n is not p.test:
+                t = asm.truth(p.test, i)
+                want = n is p.body
+                if (t is (not want)) or (must and t is not want):
+                    ok = False
+            elif isinstance(p, ast.BoolOp) and n is not p.values[0]:
+                k = [j for j, v in enumerate(p.values) if v is n][0]
+                cont = isinstance(p.op, ast.And)          # evaluation continues while operands are `cont`
+                for v in p.values[:k]:
+                    t = asm.truth(v, i)
+                    if (t is (not cont)) or (must and t is not cont):
+                        ok = False
+            elif isinstance(p, (ast.ListComp, ast.SetComp, ast.GeneratorExp, ast.DictComp)) and not isinstance(n, ast.comprehension):
+                # the element: once per item that passes every filter
+                if must or any(asm.truth(c, i) is False for g in p.generators for c in g.ifs):
+                    ok = False
+            elif isinstance(p, ast.comprehension):
+                comp = fa.pm.get(p)
+                gens = list(getattr(comp, "generators", [p]))
+                k = [j for j, g in enumerate(gens) if g is p][0] if any(g is p for g in gens) else 0
+                earlier = [c for g in gens[:k] for c in g.ifs]
+                if n is p.iter:
+                    # the first iterable is evaluated eagerly; a later one once per item of the earlier generators
+                    if k > 0 and (must or any(asm.truth(c, i) is False for c in earlier)):
+                        ok = False
+                else:
+                    j = [x for x, c in enumerate(p.ifs) if c is n]
+                    earlier = earlier + (p.ifs[:j[0]] if j else [])
+                    if must or any(asm.truth(c, i) is False for c in earlier):
+                        ok = False
+            elif isinstance(p, ast.Lambda):
+                if must:
+                    ok = False
+            n = p
+        if ok:
+            out.append(i)
+    return out
+
+
 def _check_dedupe(ck, fa, ex, outs, R2):
     """Decided on what is reachable under assumptions about the two facts that matter (is there an override?
     does the content key exist?), not on the shape of the tests."""
@@ -265,14 +334,15 @@ def _check_dedupe(ck, fa, ex, outs, R2):
     present = Assume(fa, param_truth_atom(ov_p, False, call_atom(EX, True)))
     absent = Assume(fa, param_truth_atom(ov_p, False, call_atom(EX, False)))
     with_ov = Assume(fa, param_truth_atom(ov_p, True))
-    out_nodes = fa.nodes_all(outs)
     live = present.reach()
-    ok = not (set(out_nodes) & live)
+    # evaluated, not merely "in a statement that runs": `reuse(k) if present else output(k, ...)` writes nothing
+    ok = not any(expr_live(present, o) for o in outs)
     ck.ob(R2, fa.key(ex, "no-write-when-present"), ok, "output is reached only under an override or when the content key is absent" if ok else
           "a new object version is written although the content key exists and no override was given", fa.where(ex))
     # under an override the new bytes are always written (the override location is mutable: the
     # last write must win)
     ov_tests = [n for n in fa.cfg.nodes if n.kind == "test" and n.id in fa.cfg.reachable_nodes() and with_ov.truth(n.ast, n.id) is not None]
+    out_nodes = [i for o in outs for i in expr_live(with_ov, o, must=True)]
     okw = fa.cfg.exit not in with_ov.reach(removed=out_nodes)
     ck.ob(R2, fa.key(ov_tests[0].ast if ov_tests else None, "override-always-writes"), okw, "with a key override the object is always written" if okw else
           "with a key override store() can return without writing (the reuse shortcut also fires for override keys): a second result "
